@@ -22,6 +22,10 @@ def extra_units(tier, seed, intensify):
     if intensify:
         n *= 3
     st = core.merge_all(core.pmap_chunks(_xml.u9_cases, seed, n, (tier, "xml")))
+    # minimised past failures first
+    import json as _json, os as _os
+    ncorp = len(_json.load(open(_os.path.join(_os.path.dirname(_os.path.dirname(_os.path.dirname(_os.path.abspath(__file__)))), "corpus", "xmlfmt.json"), encoding="utf-8")))
+    st.merge(core.merge_all(core.pmap_chunks(_xml.corpus_cases, seed, ncorp, (tier, "corpus"), jobs=1)))
     # one formatter instance across namespaced pairs that re-bind one prefix
     st.merge(core.merge_all(core.pmap_chunks(_xml.ns_reuse_cases, seed, 200 if tier == "quick" else 4000, (tier, "nsreuse"))))
     return st
